@@ -223,6 +223,9 @@ class BasicReadAssignmentLoader:
 
 def construct_models_in_parallel(sample, chr_id, dump_filename, args, read_groups):
     logger.info("Processing chromosome " + chr_id)
+    # known isoforms are reported once per chromosome of an experiment; the registry is process-wide,
+    # so start from scratch for every chromosome task
+    GraphBasedModelConstructor.detected_known_isoforms = set()
     construct_models = not args.no_model_construction
     current_chr_record = Fasta(args.reference, indexname=args.fai_file_name)[chr_id]
     multimapped_reads = defaultdict(list)
